@@ -300,7 +300,8 @@ def api_props(cls):
             elif isinstance(v, _props.repeated_node_property):
                 rep[name] = (v._inner_field._attr, False)
             elif isinstance(v, _props.cached_custom_property):
-                views.append(name)
+                if not name.startswith('_'):
+                    views.append(name)
             elif isinstance(v, (_vp.required_value_property, _vp.optional_string_property,
                                 _vp.optional_indented_string_property, _vp.optional_decimal_property,
                                 _vp.optional_date_property)):
